@@ -67,6 +67,9 @@ pub enum Op {
     Release(u16),
     /// drop a sender handle on a helper thread instead of the program's thread
     DropTxElsewhere(u16),
+    /// spawn an unrelated child process (exec of the harness binary with `helper sleep`) that stays
+    /// alive until the end of the program: it must not keep any channel alive
+    Bystander,
 }
 
 pub enum Remote {
@@ -157,6 +160,7 @@ pub struct Stats {
     pub remote_holds: u32,
     pub fork_holds: u32,
     pub rich_sends_err: u32,
+    pub bystanders: u32,
     pub delivered_after_transit: u32,
 }
 
@@ -173,6 +177,7 @@ pub struct World {
     pub sets: Vec<SetH>,
     pub servers: Vec<SrvH>,
     pub remotes: Vec<Remote>,
+    pub bystanders: Vec<std::process::Child>,
     next_tag: u32,
     pub trace: Vec<String>,
     pub stats: Stats,
@@ -287,6 +292,15 @@ impl<'a> Binder for WorldBinder<'a> {
     }
 }
 
+impl Drop for World {
+    fn drop(&mut self) {
+        for mut c in self.bystanders.drain(..) {
+            let _ = c.kill();
+            let _ = c.wait();
+        }
+    }
+}
+
 macro_rules! wfail {
     ($sig:expr, $($arg:tt)*) => {
         return Err(Failure::new($sig, format!($($arg)*)))
@@ -303,6 +317,7 @@ impl World {
             sets: vec![],
             servers: vec![],
             remotes: vec![],
+            bystanders: vec![],
             next_tag: 1,
             trace: vec![],
             stats: Stats::default(),
@@ -550,6 +565,28 @@ impl World {
                 self.stats.remote_holds += 1;
                 self.stats.fork_holds += 1;
                 self.trace.push(format!("hold{}", chan));
+                Ok(())
+            },
+            Op::Bystander => {
+                if cfg!(feature = "inproc") || self.bystanders.len() >= 2 {
+                    return self.skip("bystander");
+                }
+                let exe = std::env::current_exe().map_err(|e| Failure::inconclusive(e.to_string()))?;
+                let mut child = std::process::Command::new(exe)
+                    .args(["helper", "sleep"])
+                    .stdin(std::process::Stdio::piped())
+                    .stdout(std::process::Stdio::piped())
+                    .stderr(std::process::Stdio::null())
+                    .spawn()
+                    .map_err(|e| Failure::inconclusive(format!("spawn bystander: {}", e)))?;
+                // wait until the child has exec'ed (it writes one byte): from then on it only holds
+                // what was not close-on-exec at the moment of the spawn
+                use std::io::Read;
+                let mut b = [0u8; 1];
+                let _ = child.stdout.as_mut().unwrap().read(&mut b);
+                self.bystanders.push(child);
+                self.stats.bystanders += 1;
+                self.trace.push("bystander".into());
                 Ok(())
             },
             Op::Release(s) => {
@@ -1313,6 +1350,7 @@ pub fn op_strategy(w: [u32; 10]) -> BoxedStrategy<Op> {
                 2 => any::<u16>().prop_map(Op::ForkHold),
                 3 => any::<u16>().prop_map(Op::Release),
                 2 => any::<u16>().prop_map(Op::DropTxElsewhere),
+                1 => Just(Op::Bystander),
             ]
             .boxed(),
         ),
@@ -1361,6 +1399,18 @@ fn snippet() -> BoxedStrategy<Vec<Op>> {
                 v.push(Op::Send { tx: LAST, size: Size::Tiny, tree: NP::Unit });
             }
             v.push(Op::Send { tx, size, tree: NP::Ep { kind: EpKind::Rx, sel: LAST } });
+            v
+        }),
+        // more messages on one set member than any per-event cap, then select, then silence
+        (33usize..47, any::<bool>()).prop_map(|(k, drop_tx)| {
+            let mut v = vec![Op::NewChan, Op::SetNew, Op::SetAdd { set: LAST, rx: LAST }];
+            for _ in 0..k {
+                v.push(Op::Send { tx: LAST, size: Size::Tiny, tree: NP::Unit });
+            }
+            if drop_tx {
+                v.push(Op::DropTx(LAST));
+            }
+            v.push(Op::SetSelect(LAST));
             v
         }),
         // last sender travels inside a message while no handle is held
